@@ -267,6 +267,7 @@ def run_case(case, monitors=()):
             L, R = sim.tree(0), sim.tree(1)
             probs.extend(O.exact_problems(L, case["expect"], "local_tree"))
             probs.extend(O.exact_problems(R, case["expect"], "remote_tree"))
+            stats["diverged"] = O.converged_problems(L, R)[:3]
             cp = O.conflicted_paths(L, R)
             if cp:
                 probs.append(("conflicted_artefact", cp[:3]))
